@@ -29,6 +29,10 @@ const (
 	findingUnusableC02 = "C02-empty-line-unusable-candidate"
 	findingUnusableC03 = "C03-unusable-candidate"
 	findingUnusableC04 = "C04-unusable-candidate"
+	// On the truncated line the fit decision discounts the trailing white space / end letter spacing of
+	// the kept text although the truncator follows it: laid out (white space only when trimming is
+	// disabled), the line exceeds maxWidth by that amount.
+	findingUntrimmedSpaceC04 = "C04-truncated-line-trailing-discount"
 )
 
 type violation struct {
@@ -287,7 +291,7 @@ func (m *model) checkC02(res *result, p *parsed, rep *reporter) (info c02info) {
 					edge = gi == 0
 				}
 				canSpace := !cfg.DisableTrailingWhitespaceTrim && edge && gIsSpace(w, vertical)
-				kind := m.classifyGlyphDiff(got, w, vertical)
+				kind := m.classifyGlyphDiff(got, w, vertical, int64(m.b.trueStartLS(w)))
 				switch {
 				case kind == diffStartTrim && firstOfLine:
 					info.trimmedStart++
@@ -300,11 +304,11 @@ func (m *model) checkC02(res *result, p *parsed, rep *reporter) (info c02info) {
 					info.trimmedStart++
 				case kind == diffStartTrim || kind == diffStartTrimSpaceZero && canSpace:
 					// start letter spacing removed from a glyph that is not the first of the line
-					mutatedLS += startLS(w)
+					mutatedLS += m.b.trueStartLS(w)
 					if kind == diffStartTrimSpaceZero {
 						spaceTrims++
 					}
-					rep.report("C02/glyphs", aliasC02, "call %d run %d glyph %d (cluster %d): start letter spacing %d removed from a glyph that is not the first glyph of the line", l.call, ri, gi, w.ClusterIndex, startLS(w))
+					rep.report("C02/glyphs", aliasC02, "call %d run %d glyph %d (cluster %d): start letter spacing %d removed from a glyph that is not the first glyph of the line", l.call, ri, gi, w.ClusterIndex, m.b.trueStartLS(w))
 				default:
 					rep.report("C02/glyphs", "", "call %d run %d glyph %d (cluster %d) differs from the input glyph: got %+v want %+v (space-trim allowed here: %v, start-trim allowed here: %v)", l.call, ri, gi, w.ClusterIndex, *got, *w, canSpace, firstOfLine)
 				}
@@ -338,7 +342,7 @@ func (m *model) advanceDiffIsStartSpacing(run *shaping.Output, want []shaping.Gl
 	var lost fixed.Int26_6
 	for gi := range run.Glyphs {
 		if startLS(&run.Glyphs[gi]) == 0 {
-			lost += startLS(&want[gi])
+			lost += m.b.trueStartLS(&want[gi])
 		}
 	}
 	return lost != 0 && d == lost
@@ -354,7 +358,8 @@ const (
 )
 
 // classifyGlyphDiff compares got with the input glyph w field by field.
-func (m *model) classifyGlyphDiff(got, w *shaping.Glyph, vertical bool) diffKind {
+// ls is the start letter spacing really present on w (the only amount the start trim may remove).
+func (m *model) classifyGlyphDiff(got, w *shaping.Glyph, vertical bool, ls int64) diffKind {
 	gv, wv := glyphVec(got), glyphVec(w)
 	fa, fo := fXAdvance, fXOffset
 	if vertical {
@@ -365,7 +370,6 @@ func (m *model) classifyGlyphDiff(got, w *shaping.Glyph, vertical bool) diffKind
 			return diffOther
 		}
 	}
-	ls := wv[fStartLS]
 	space := gIsSpace(w, vertical)
 	switch {
 	case gv[fStartLS] == wv[fStartLS] && gv[fo] == wv[fo]:
@@ -497,10 +501,13 @@ type c04info struct {
 	decisions, truncDecisions, overwideUnit int
 	negAdvance                              bool
 	trivial                                 string // why no decision was observed
+	tightSpaceBeforeTruncator               int    // truncated line cut right after a space that would not have fitted
+	letterSpacedTight                       int    // letter-spaced line whose width is within ls/2 of the line's laid-out width
 }
 
 func (m *model) checkC04(res *result, p *parsed, rep *reporter) (info c04info) {
 	cfg := &m.b.cfg
+	c := m.c
 	k := m.c.Cfg.Lines
 	info.negAdvance = m.hasNeg
 	truncAdv := cfg.Truncator.Advance.Ceil()
@@ -520,8 +527,17 @@ func (m *model) checkC04(res *result, p *parsed, rep *reporter) (info c04info) {
 		}
 		return true, lo.Ceil(), other
 	}
-	fits := func(s, e, limit int, other string) (bad bool, val int, finding string) {
+	// beforeTruncator: the candidate would be followed by the truncator. Then nothing of it is trailing
+	// (the demand is stated on what would be laid out: only a white space glyph that the library is
+	// going to trim is not counted); a library that still discounts the end letter spacing / an
+	// untrimmed space there extends even more, so the demand never over-asks.
+	fits := func(s, e, limit int, other string, beforeTruncator bool) (bad bool, val int, finding string) {
 		_, hi := m.measure(s, e)
+		if beforeTruncator {
+			if t := m.measureBeforeTruncator(s, e); t > hi {
+				hi = t
+			}
+		}
 		if hi.Ceil() > limit {
 			return false, hi.Ceil(), ""
 		}
@@ -635,6 +651,117 @@ func (m *model) checkC04(res *result, p *parsed, rep *reporter) (info c04info) {
 				info.overwideUnit++
 			}
 		}
+		// the same two bounds on what is actually laid out: the advances of the glyphs present in the
+		// returned line (after whatever trimming the library did), not re-derived from the input
+		{
+			// (a documented adjustment that widens a glyph - zeroing a white space glyph or removing a
+			// start letter spacing whose advance / amount is negative - is not held against the line:
+			// each glyph counts with the smaller of its returned and its input advance)
+			var outSum fixed.Int26_6
+			readable := true
+			for pi, ri := range l.pieces {
+				run := &l.o.line[ri]
+				v := run.Direction.IsVertical()
+				in := m.inputGlyphs(run)
+				if len(in) != len(run.Glyphs) {
+					readable = false // glyphs lost or duplicated: C02's business
+					break
+				}
+				for gi := range run.Glyphs {
+					a := gAdv(&run.Glyphs[gi], v)
+					b := gAdv(&in[gi], v)
+					if pi == 0 && gi == 0 {
+						if d := m.b.trueStartLS(&in[gi]); d > 0 {
+							b -= d // the start trim comes first, a white space glyph may then be zeroed
+						}
+					}
+					if b < a {
+						a = b
+					}
+					outSum += a
+				}
+			}
+			if !readable {
+				continue
+			}
+			lastRun := &l.o.line[l.pieces[len(l.pieces)-1]]
+			// the glyph that logically ends the kept text, when it is at the paragraph-direction end of its run
+			var lastOut, lastIn *shaping.Glyph
+			if lastRun.Direction == cfg.Direction && len(lastRun.Glyphs) > 0 {
+				if lastRun.Direction.Progression() == di.TowardTopLeft {
+					lastOut, lastIn = &lastRun.Glyphs[0], m.endG0[e]
+				} else {
+					lastOut, lastIn = &lastRun.Glyphs[len(lastRun.Glyphs)-1], m.endG1[e]
+				}
+			}
+			vert := lastRun.Direction.IsVertical()
+			if l.trunc >= 0 {
+				// on the truncated line the truncator is at the line end: nothing before it is trailing
+				tight := false
+				if lastIn != nil && gIsSpace(lastIn, vert) && gAdv(lastIn, vert) > 0 {
+					lo, _ := m.measure(s, e)
+					tight = (lo + gAdv(lastIn, vert)).Ceil() > subWidth(width, truncAdv)
+				}
+				if tight {
+					info.tightSpaceBeforeTruncator++
+				}
+				if laid := outSum + cfg.Truncator.Advance; laid.Ceil() > width {
+					f := ""
+					// matcher: the glyph that ends the kept text is in a run of the paragraph direction and
+					// the fit decision discounted something of it that is nevertheless laid out before the
+					// truncator: its whole advance if it is white space and trimming is disabled, else its
+					// real end letter spacing; without that amount the line fits
+					if lastOut != nil {
+						var x fixed.Int26_6
+						if gIsSpace(lastOut, vert) {
+							if cfg.DisableTrailingWhitespaceTrim {
+								x = gAdv(lastOut, vert)
+							}
+						} else if lastIn != nil {
+							x = m.b.trueEndLS(lastIn)
+						}
+						if x > 0 && (laid-x).Ceil() <= width {
+							f = findingUntrimmedSpaceC04
+						}
+					}
+					rep.report("C04/laid-out-truncated-width", f, "call %d: kept text [%d,%d) as returned measures %d/64, truncator %d/64: %d > width %d", l.call, s, e, outSum, cfg.Truncator.Advance, laid.Ceil(), width)
+				}
+			} else {
+				var disc fixed.Int26_6
+				if lastOut != nil {
+					if gIsSpace(lastOut, vert) {
+						disc = gAdv(lastOut, vert)
+					} else if lastIn != nil {
+						disc = m.b.trueEndLS(lastIn)
+					}
+				}
+				if disc < 0 {
+					disc = 0
+				}
+				if laid := outSum - disc; laid.Ceil() > width {
+					inner := false
+					for q := s + 1; q < e && !inner; q++ {
+						inner = m.candidate(q, wordsOnlyUnit)
+					}
+					if inner {
+						rep.report("C04/laid-out-width", unusable(prevStart, e), "call %d: line [%d,%d) as returned measures %d/64 (trailing white space / real end letter spacing %d/64 not counted): %d > width %d, and it is not a single unbreakable unit", l.call, s, e, outSum, disc, laid.Ceil(), width)
+					}
+				}
+				if m.hasLS && c.LetterSpacing != 0 {
+					half := int(c.LetterSpacing) / 2
+					if half < 0 {
+						half = -half
+					}
+					d := width - outSum.Ceil()
+					if d < 0 {
+						d = -d
+					}
+					if d <= (half+63)/64 {
+						info.letterSpacedTight++
+					}
+				}
+			}
+		}
 		// greedy: the next permitted candidate must not fit
 		if e >= m.n || m.mand[e] {
 			continue
@@ -659,7 +786,13 @@ func (m *model) checkC04(res *result, p *parsed, rep *reporter) (info c04info) {
 		if l.trunc >= 0 {
 			lineLimit = subWidth(width, truncAdv)
 		}
-		if _, strictLine := m.measure(s, e); strictLine.Ceil() > lineLimit {
+		_, strictLine := m.measure(s, e)
+		if l.trunc >= 0 {
+			if t := m.measureBeforeTruncator(s, e); t > strictLine {
+				strictLine = t
+			}
+		}
+		if strictLine.Ceil() > lineLimit {
 			// the line itself (possibly) exceeds its budget: an over-wide unbreakable unit (or the
 			// bound violation reported above). Extending it cannot fit either, except through
 			// negative advances (fits is then not monotone; the wrapper, like any greedy filler,
@@ -667,15 +800,17 @@ func (m *model) checkC04(res *result, p *parsed, rep *reporter) (info c04info) {
 			continue
 		}
 		limit := width
+		beforeTruncator := false
 		if truncLine {
 			info.truncDecisions++
 			if !(e2 == m.n && !cfg.TextContinues) {
 				limit = subWidth(width, truncAdv)
+				beforeTruncator = true
 			}
 		} else {
 			info.decisions++
 		}
-		if bad, val, fnd := fits(s, e2, limit, unusable(prevStart, e2)); bad {
+		if bad, val, fnd := fits(s, e2, limit, unusable(prevStart, e2), beforeTruncator); bad {
 			rep.report("C04/greedy", fnd, "call %d: line [%d,%d) ends at an optional break although extending it to the next permitted candidate %d measures %d <= %d (width %d, truncating line=%v)", l.call, s, e, e2, val, limit, width, truncLine)
 		}
 	}
@@ -691,11 +826,13 @@ func (m *model) checkC04(res *result, p *parsed, rep *reporter) (info c04info) {
 			e2 := m.nextCandidate(l.s, cfg.BreakPolicy == shaping.Never)
 			if e2 > 0 {
 				limit := subWidth(l.o.width, truncAdv)
+				beforeTruncator := true
 				if e2 == m.n && !cfg.TextContinues {
 					limit = l.o.width
+					beforeTruncator = false
 				}
 				info.truncDecisions++
-				if bad, val, fnd := fits(l.s, e2, limit, unusable(prevStart, e2)); bad {
+				if bad, val, fnd := fits(l.s, e2, limit, unusable(prevStart, e2), beforeTruncator); bad {
 					rep.report("C04/greedy", fnd, "call %d: everything from rune %d was truncated although the first candidate %d measures %d <= %d", l.call, l.s, e2, val, limit)
 				}
 			}
@@ -730,4 +867,30 @@ func subWidth(width, adv int) int {
 		return math.MaxInt
 	}
 	return width - adv
+}
+
+// inputGlyphs returns the glyphs of the input run holding the piece whose cluster lies in the
+// piece's rune range (nil when the piece is not inside one input run).
+func (m *model) inputGlyphs(piece *shaping.Output) []shaping.Glyph {
+	off, end := piece.Runes.Offset, piece.Runes.Offset+piece.Runes.Count
+	if off < 0 || end > m.n || off >= end {
+		return nil
+	}
+	src := &m.b.runs[m.runOf[off]]
+	if end > src.Runes.Offset+src.Runes.Count {
+		return nil
+	}
+	lo, hi := -1, -1
+	for gi := range src.Glyphs {
+		if ci := src.Glyphs[gi].ClusterIndex; ci >= off && ci < end {
+			if lo < 0 {
+				lo = gi
+			}
+			hi = gi
+		}
+	}
+	if lo < 0 {
+		return nil
+	}
+	return src.Glyphs[lo : hi+1]
 }
